@@ -58,6 +58,10 @@ type Obs struct {
 }
 
 const baseFee = 3
+
+// the names the fee tables (PosFeeMap, GovFeeMap, auth FeeMultipliers) are keyed by
+var msgNames = map[string]string{"stake": "stake_validator", "unstake": "begin_unstaking_validator", "unjail": "unjail", "send": "send",
+	"changeparam": "change_param", "upgrade": "upgrade", "daotransfer": "dao_tranfer"}
 const sigLimit = 7
 
 // a signing identity: simple key or (nested) multisig
@@ -186,7 +190,8 @@ func main() {
 		idCache[k] = v
 		return v
 	}
-	entropy := int64(1000)
+	// entropies as the transaction builder draws them (RandInt64): large; the "entropy" mutation moves it by one
+	entropy := int64(1)<<61 + 1000
 	n := 0
 	for sc.Scan() {
 		if len(sc.Bytes()) == 0 {
@@ -203,8 +208,21 @@ func main() {
 		signer := sdk.Address(own.pub.Address())
 		ctx := a.Ctx()
 		// fee multiplier setting
+		// the multiplier under test is configured for THIS kind of message under its documented name
+		// (written out here, not taken from msg.Type()); every other kind and the default stay at 1, so a
+		// lookup under a wrong name prices the transaction too low
 		ap := authtypes.DefaultParams()
-		ap.FeeMultiplier.Default = c.Mult
+		ap.FeeMultiplier.Default = 1
+		for _, k := range []string{"stake", "unstake", "unjail", "send", "changeparam", "upgrade", "daotransfer"} {
+			m := int64(1)
+			if k == c.Msg {
+				m = c.Mult
+			}
+			ap.FeeMultiplier.FeeMultis = append(ap.FeeMultiplier.FeeMultis, authtypes.FeeMultiplier{Key: msgNames[k], Multiplier: m})
+		}
+		if n%2 == 0 { // (half of the cases: the plain default multiplier, nothing per message)
+			ap.FeeMultiplier = authtypes.FeeMultipliers{Default: c.Mult}
+		}
 		a.AK.SetParams(ctx, ap)
 		required := baseFee * c.Mult
 		fee := required + c.FeeD
@@ -318,7 +336,7 @@ func main() {
 		case "memo":
 			tx.Memo = memo + "x"
 		case "entropy":
-			tx.Entropy = entropy + 1000000
+			tx.Entropy = entropy + []int64{1, -1, 100, 1000000}[n%4]
 		case "sig":
 			s2 := append([]byte{}, sig...)
 			s2[len(s2)-3] ^= 0x04
